@@ -232,6 +232,31 @@ pub const VERSION_PSEUDO_HEADER: &str = ":http-version";
 /// turns to garbage at that point.
 pub const BREAK_PSEUDO_HEADER: &str = ":break-after";
 
+/// Request headers that have nothing to do with the protocol and must not change any outcome
+/// (nor cost a response its Cache-Control): what browsers, proxies and HTTP libraries add.
+pub const N_EXTRA_HEADER_SETS: u8 = 16;
+pub fn extra_header_set(k: u8) -> Vec<(String, Vec<u8>)> {
+    let h = |n: &str, v: &str| (n.to_string(), v.as_bytes().to_vec());
+    match k % N_EXTRA_HEADER_SETS {
+        1 => vec![h("Accept-Encoding", "identity;q=0")],
+        2 => vec![h("Accept-Encoding", "*;q=0")],
+        3 => vec![h("Accept-Encoding", "gzip, deflate, br, zstd")],
+        4 => vec![h("Accept", "application/json")],
+        5 => vec![h("Accept", "text/html;q=0, */*;q=0")],
+        6 => vec![h("Range", "bytes=0-3")],
+        7 => vec![h("If-None-Match", "*"), h("If-Match", "\"abc\"")],
+        8 => vec![h("If-Modified-Since", "Wed, 21 Oct 2015 07:28:00 GMT"), h("If-Unmodified-Since", "Wed, 21 Oct 2015 07:28:00 GMT")],
+        9 => vec![h("Origin", "https://example.org"), h("Access-Control-Request-Method", "POST"), h("Access-Control-Request-Headers", "x-client-id")],
+        10 => vec![h("X-Forwarded-For", "203.0.113.7, 10.0.0.1"), h("Forwarded", "for=203.0.113.7;proto=https"), h("X-Forwarded-Proto", "https"), h("Via", "1.1 proxy")],
+        11 => vec![h("Cookie", "session=abc; theme=dark"), h("Authorization", "Basic Zm9vOmJhcg==")],
+        12 => vec![h("Cache-Control", "only-if-cached, max-stale=3600"), h("Pragma", "no-cache")],
+        13 => vec![h("Accept-Language", "de-CH, en;q=0.5"), h("Accept-Charset", "utf-16;q=1, *;q=0"), h("User-Agent", "")],
+        14 => vec![h("Content-Encoding", "identity"), h("Content-Language", "en")],
+        15 => vec![h("X-Client-Id-Extra", "1"), h("X-Version-Id", "00000000-0000-0000-0000-000000000001"), h("X-Parent-Version-Id", "00000000-0000-0000-0000-000000000002"), h("X-Snapshot-Request", "urgency=high")],
+        _ => vec![],
+    }
+}
+
 pub fn break_plan(r: &HttpReq) -> Option<(usize, u8)> {
     let v = r.headers.iter().find(|(n, _)| n == BREAK_PSEUDO_HEADER)?;
     let t = String::from_utf8_lossy(&v.1).into_owned();
@@ -574,6 +599,8 @@ pub struct Driver {
     /// text form of ids in paths and in the client-id header: 0 canonical, 1 upper case, 2 simple,
     /// 3 braced, 4 urn (C14 only: all of them name the same id)
     pub id_style: u8,
+    /// index of a set of protocol-irrelevant request headers added to every request (0 = none)
+    pub extra_headers: u8,
     /// in-process uploads arrive in two halves with this many seconds of (virtual) time between them
     pub stall_secs: u32,
     /// appended to the Content-Type of uploads (e.g. "; charset=utf-8"): parameters do not change
@@ -627,6 +654,7 @@ impl Driver {
             server: None,
             http: None,
             id_style: 0,
+            extra_headers: 0,
             stall_secs: 0,
             ct_params: None,
             content_length: false,
@@ -738,6 +766,9 @@ impl Driver {
 
     pub fn http_call(&mut self, mut r: HttpReq) -> HttpResp {
         self.restyle(&mut r);
+        if self.extra_headers != 0 {
+            r.headers.extend(extra_header_set(self.extra_headers));
+        }
         let resp = match &mut self.ext {
             Some(f) => f(&r),
             None => self.http.as_ref().expect("http driver").call(r.clone()),
